@@ -777,6 +777,8 @@ pub struct Ctx {
     pub replays: Vec<(String, Value)>,
     /// set in an E3 worker process: only this sub-check runs
     pub child_sub: Option<String>,
+    /// fuzz mode: no progress lines on stdout
+    pub quiet: bool,
 }
 
 pub fn verif_root() -> String {
@@ -824,6 +826,7 @@ impl Ctx {
             replay_entropy: None,
             replays: if std::env::var("VH_CHILD_SUB").is_ok() { vec![] } else { load_replays(&verif_root(), prop) },
             child_sub: std::env::var("VH_CHILD_SUB").ok(),
+            quiet: false,
         }
     }
 
@@ -873,7 +876,11 @@ impl Ctx {
         if let Some((sub, ent)) = self.replay_entropy.clone() {
             if sub == name {
                 match self.run_entropy(&ent, &f) {
-                    None => println!("REPLAY-OK property={} subcheck={}", self.prop, name),
+                    None => {
+                        if !self.quiet {
+                            println!("REPLAY-OK property={} subcheck={}", self.prop, name)
+                        }
+                    }
                     Some(fl) => self.report_failure(name, Some((0, &ent)), fl),
                 }
                 self.subs.push(SubReport {
@@ -1377,6 +1384,17 @@ fn shrink_iters() -> u32 {
 }
 
 pub fn load_known(root: &str, prop: &str) -> Vec<KnownFinding> {
+    static CACHE: Mutex<Option<BTreeMap<String, Vec<KnownFinding>>>> = Mutex::new(None);
+    let key = format!("{}|{}", root, prop);
+    if let Some(v) = CACHE.lock().unwrap().as_ref().and_then(|m| m.get(&key).cloned()) {
+        return v;
+    }
+    let v = load_known_uncached(root, prop);
+    CACHE.lock().unwrap().get_or_insert_with(BTreeMap::new).insert(key, v.clone());
+    v
+}
+
+fn load_known_uncached(root: &str, prop: &str) -> Vec<KnownFinding> {
     let p = format!("{}/known_findings.json", root);
     let txt = match std::fs::read_to_string(&p) {
         Ok(t) => t,
